@@ -65,6 +65,7 @@ type harness struct {
 
 func newHarness() *harness {
 	h := &harness{in: refsem.New(), tuples: argTuples()}
+	refsem.InstallFull(h.in) // the templates use built-ins beyond the typed grammar (number, combine, numbers)
 	h.gens[0] = vrun.NewGen(true, addHost)
 	h.gens[1] = vrun.NewGen(false, addHost)
 	addHostRef(h.in)
@@ -366,12 +367,80 @@ func (h *harness) runStaticNames(ctx *bex.Ctx) {
 			)
 		}
 	}
+	// an index access inside a closure that runs while an enclosing lazy list is being indexed
+	for _, inner := range []*vlang.Node{
+		vlang.MethodN(vlang.ListN(I(10), I(20), I(30), I(40)), "combine", vlang.LamN([]string{"p", "q"}, op("+", v("p"), v("q")))),
+		vlang.MethodN(vlang.ListN(I(10), I(20), I(30)), "number", vlang.LamN([]string{"n", "x"}, op("+", v("x"), v("n")))),
+		vlang.MethodN(vlang.ListN(I(10), I(20), I(30)), "map", vlang.LamN([]string{"e"}, op("+", v("e"), I(1)))),
+	} {
+		cAt := func(i *vlang.Node) *vlang.Node { return vlang.IndexN(v("c"), i) }
+		num := vlang.MethodN(vlang.StaticN("numbers", I(3)), "number", vlang.LamN([]string{"n", "x"}, op("+", op("+", cAt(v("n")), v("x")), v("a"))))
+		progs = append(progs,
+			vlang.LetN("c", inner, vlang.IndexN(num, I(1))),
+			vlang.LetN("c", inner, vlang.MethodN(num, "sum")),
+			vlang.LetN("c", inner, vlang.IndexN(vlang.MethodN(vlang.ListN(I(0), I(1), I(2), I(0)), "combine", vlang.LamN([]string{"p", "q"}, op("+", op("+", cAt(v("p")), cAt(v("q"))), v("a")))), I(2))),
+			vlang.LetN("c", inner, vlang.IndexN(vlang.MethodN(vlang.StaticN("numbers", I(3)), "map", vlang.LamN([]string{"x"}, op("+", cAt(v("x")), v("a")))), I(2))))
+	}
+	// a recursive func declared inside a closure that captures several outer values, the func using some of
+	// them: the closure's other captured values must read the same before and after the func was created
+	for _, uw := range [][2]string{{"a", "b"}, {"b", "a"}} {
+		u, w := v(uw[0]), v(uw[1])
+		rec := func(body *vlang.Node) *vlang.Node {
+			return vlang.FuncN("r", []string{"n"}, vlang.IfN(op("<", v("n"), I(1)), u, vlang.CallN(v("r"), op("-", v("n"), I(1)))), body)
+		}
+		rx := vlang.CallN(v("r"), v("x"))
+		for _, body := range []*vlang.Node{
+			op("+", op("*", rx, I(100)), w),
+			op("+", op("*", w, I(100)), rx),
+			vlang.ListN(rx, w, u),
+			vlang.CallN(v("g"), rx),
+			op("+", rx, vlang.MethodN(v("l"), "size")),
+			vlang.ListN(rx, w, vlang.MethodN(v("l"), "size"), v("x")),
+		} {
+			outer := vlang.LamN([]string{"x"}, rec(body))
+			progs = append(progs,
+				vlang.LetN("g", vlang.LamN([]string{"k"}, op("*", v("k"), w)), vlang.LetN("outer", outer, vlang.CallN(v("outer"), I(3)))),
+				vlang.LetN("g", vlang.LamN([]string{"k"}, op("*", v("k"), w)), vlang.MethodN(vlang.ListN(I(0), I(2)), "map", outer)),
+				vlang.LetN("g", vlang.LamN([]string{"k"}, op("+", v("k"), u)), vlang.CallN(vlang.CallN(vlang.LamN([]string{"y"}, outer), I(1)), I(2))))
+		}
+	}
 	if ctx.Shard == 0 {
 		for _, p := range progs {
 			h.check(ctx, p, nil)
 		}
 	}
-	ctx.SpaceDone("one call site m.name(..) reached with maps that do and do not store a closure under name, in 4 orders x 3 names x 3 forms; 4 static-function names (abs, sqrt, min, string) as closure parameter, let (constant and non-constant value), func, captured, inside a list method's callback, as a plain value x 10 templates; 4 map-method names (get, put, size, map) as keys of closure-valued map fields x 4 templates (constant and non-constant maps)")
+	ctx.SpaceDone("index accesses inside closures of number/combine/map while the enclosing lazy list is indexed x 3 kinds of lazy constant list; a recursive func declared inside a closure that captures 2-4 outer values x 2 capture orders x 6 bodies that read the other captured values afterwards x 3 forms; one call site m.name(..) reached with maps that do and do not store a closure under name, in 4 orders x 3 names x 3 forms; 4 static-function names (abs, sqrt, min, string) as closure parameter, let (constant and non-constant value), func, captured, inside a list method's callback, as a plain value x 10 templates; 4 map-method names (get, put, size, map) as keys of closure-valued map fields x 4 templates (constant and non-constant maps)")
+}
+
+// switchMatrix: switch with two and three cases over constant and non-constant subjects and labels of every
+// sort: the first label that equals the subject wins, left to right, whatever is constant.
+func switchMatrix() []*vlang.Node {
+	v, I, op := vlang.V, vlang.I, vlang.Op
+	subjects := []*vlang.Node{I(2), vlang.Bo(true), vlang.S("a"), op("+", v("a"), I(2)), v("k")}
+	labels := []*vlang.Node{I(2), I(1), op("+", I(1), I(1)), op("+", v("a"), I(2)), op("<", v("a"), I(1)), vlang.Bo(true), vlang.S("a"), v("k")}
+	var out []*vlang.Node
+	wrap := func(n *vlang.Node) *vlang.Node { return vlang.LetN("k", I(2), n) }
+	for _, sub := range subjects {
+		for _, l1 := range labels {
+			for _, l2 := range labels {
+				out = append(out, wrap(vlang.SwitchN(sub, I(99), l1, I(11), l2, I(12))))
+				for _, l3 := range labels {
+					out = append(out, wrap(vlang.SwitchN(sub, I(99), l1, I(11), l2, I(12), l3, I(13))))
+				}
+			}
+		}
+	}
+	return out
+}
+
+func (h *harness) runSwitch(ctx *bex.Ctx) {
+	ctx.Space("switch-matrix")
+	for i, p := range switchMatrix() {
+		if ctx.Mine(int64(i)) && !ctx.Expired() {
+			h.check(ctx, p, nil)
+		}
+	}
+	ctx.SpaceDone("switch with 2 and 3 cases: 5 subjects (constants of 3 sorts, a non-constant sum, a let-bound constant) x 8 labels per case (constants, constant expressions, non-constant expressions, bools, strings, the let-bound constant); a in {0,3}; optimizer on/off")
 }
 
 func run(ctx *bex.Ctx) {
@@ -383,6 +452,7 @@ func run(ctx *bex.Ctx) {
 	h.runDeferred(ctx)
 	h.runOperators(ctx)
 	h.runStaticNames(ctx)
+	h.runSwitch(ctx)
 	// tier B first (cheap, deep), then tier A
 	ctx.Space("tierB-binder-skeletons")
 	var idx int64
